@@ -875,7 +875,9 @@ def gen_case(rng, mode, pattern=None, pclass=None):
     units.sort(key=lambda u: u["id"])
     case = {"units": units, "pattern": pattern_, "pclass": pclass_, "mode": mode, "layout": gen_layout(rng, units)}
     if mode == "driver":
-        case["extra"] = rng.choice([["--ff=AMBER"], ["--ff=AMBER"], ["--ff=AMBER", "--nodebump"], ["--ff=AMBER", "--noopt"], ["--ff=PARSE"], ["--ff=CHARMM"]])
+        case["extra"] = rng.choice([["--ff=AMBER"], ["--ff=AMBER"], ["--ff=AMBER", "--nodebump"], ["--ff=AMBER", "--noopt"], ["--ff=PARSE"], ["--ff=CHARMM"],
+                                    # terminus options: every 'single' unit is a chain end (both ends), 'tri' units have the cysteine inside
+                                    ["--ff=PARSE", "--neutraln"], ["--ff=PARSE", "--neutralc"], ["--ff=PARSE", "--neutraln", "--neutralc"], ["--ff=TYL06"], ["--ff=SWANSON", "--keep-chain"]])
     return case
 
 
